@@ -38,7 +38,24 @@ For native functions and special operators body will be nil."
 pub fn destructure_function(mem: &mut Memory, args: &[GcRef], _env: GcRef, _recursion_depth: usize) -> Result<GcRef, GcRef> {
     validate_args!(mem, DESTRUCTURE_FUNCTION.name, args, (let f: TypeLabel::Function));
 
-    let params = f.get_param_names().iter().map(|pn| mem.symbol_for(&pn)).collect::<Vec<GcRef>>();
+    let params = match f {
+        Function::NormalFunction(nf) => {
+            // the parameter symbols themselves: a symbol made by gensym cannot be found again by its name
+            let symbol_or_invalid = |mem: &mut Memory, p: GcRef| {
+                if let Some(PrimitiveValue::Symbol(_)) = p.get() {p} else {mem.symbol_for("#<invalid-parameter-name>")}
+            };
+            let mut params = vec![];
+            for p in nf.non_rest_params() {
+                params.push(symbol_or_invalid(mem, p));
+            }
+            if let Some(rp) = nf.rest_param() {
+                params.push(mem.symbol_for("&"));
+                params.push(symbol_or_invalid(mem, rp));
+            }
+            params
+        },
+        Function::NativeFunction(_) => f.get_param_names().iter().map(|pn| mem.symbol_for(&pn)).collect::<Vec<GcRef>>(),
+    };
     let vec    = vec![mem.symbol_for("kind"),        mem.symbol_for(f.get_kind().to_string()),
                       mem.symbol_for("parameters"),  vec_to_list(mem, &params),
                       mem.symbol_for("body"),        f.get_body(),
